@@ -75,10 +75,13 @@ def main():
     V.notes['documented_names'] = {n: doc.get(n, 'statement') for n in sorted(documented | surrogate)}
     V.notes['surrogate_names_not_checked'] = sorted(surrogate)
 
-    confs = [('N4-F2', {'N': 4, 'NFeat': 2, 'FeatVals': '{0,1,2}', 'OtherVals': '{0,1}', 'LabelVals': '{0,1}'})]
+    confs = [('N4-F2', {'N': 4, 'NFeat': 2, 'FeatVals': '{0,1,2}', 'OtherVals': '{0,1}', 'LabelVals': '{0,1}'}),
+             # a label with MORE values than the feature (orientation of the asymmetric score)
+             ('N4-F1-label3', {'N': 4, 'NFeat': 1, 'FeatVals': '{0,1}', 'OtherVals': '{0,1}', 'LabelVals': '{0,1,2}'})]
     if tier != 'quick':
         confs += [('N5-F2', {'N': 5, 'NFeat': 2, 'FeatVals': '{0,1,2}', 'OtherVals': '{0,1}', 'LabelVals': '{0,1}'}),
-                  ('N3-F3', {'N': 3, 'NFeat': 3, 'FeatVals': '{0,1,2}', 'OtherVals': '{0,1,2}', 'LabelVals': '{0,1,2}'})]
+                  ('N3-F3', {'N': 3, 'NFeat': 3, 'FeatVals': '{0,1,2}', 'OtherVals': '{0,1,2}', 'LabelVals': '{0,1,2}'}),
+                  ('N5-F1-label3', {'N': 5, 'NFeat': 1, 'FeatVals': '{0,1}', 'OtherVals': '{0,1}', 'LabelVals': '{0,1,2}'})]
     names_cycle = list(STATEMENT_NAMES)
     for label, c in confs:
         wd = E.workdir('c05')
@@ -98,7 +101,7 @@ def main():
         n = c['N']
         jobs, meta = [], []
         for k, (cols, acc) in enumerate(cases):
-            per_frame = names_cycle if tier != 'quick' and k % 4 == 0 else [names_cycle[(k + seed) % len(names_cycle)]]
+            per_frame = names_cycle if (tier != 'quick' and k % 4 == 0) else (['MI-numba-randomized', names_cycle[(k + seed) % len(names_cycle)]] if 'label3' in label else [names_cycle[(k + seed) % len(names_cycle)]])
             vm = VALMAPS[rng.randrange(len(VALMAPS))]
             nfeat = len(cols) - 1
             fnames = [f'f{i}' for i in range(1, nfeat + 1)]
